@@ -1,1 +1,552 @@
-// harnesses
+// Proof harnesses over trippy-core's IPv4 wire layer (child module of `net::ipv4`).
+// Properties: C02 (extract), C04 (receive path), C09 (error mapping), C11 (dispatch), C13 (Paris), C19 (expected checksum).
+use super::*;
+use crate::net::socket::Socket;
+
+include!(concat!(env!("TRIPPY_VERIF_HARNESS"), "/common.rs"));
+
+mod sock {
+    include!(concat!(env!("TRIPPY_VERIF_HARNESS"), "/sockets.rs"));
+}
+use sock::{sockstate, HSock};
+
+// ------------------------------------------------------------------ independent RFC decoders / references
+
+fn be16(b: &[u8], off: usize) -> u16 {
+    (u16::from(b[off]) << 8) | u16::from(b[off + 1])
+}
+
+fn be32(b: &[u8], off: usize) -> u32 {
+    (u32::from(be16(b, off)) << 16) | u32::from(be16(b, off + 2))
+}
+
+/// RFC 1071: one's-complement sum of big-endian 16-bit words of b[from..to], odd tail padded.
+fn ones_sum(b: &[u8], from: usize, to: usize, max: usize) -> u32 {
+    let mut s = 0u32;
+    let mut i = 0;
+    while i < max {
+        let p = from + i;
+        if p < to {
+            let hi = u32::from(b[p]);
+            let lo = if p + 1 < to { u32::from(b[p + 1]) } else { 0 };
+            s += (hi << 8) | lo;
+        }
+        i += 2;
+    }
+    s
+}
+
+fn fold(mut s: u32) -> u16 {
+    s = (s & 0xffff) + (s >> 16);
+    s = (s & 0xffff) + (s >> 16);
+    s = (s & 0xffff) + (s >> 16);
+    s as u16
+}
+
+/// What the harness expects the next datagram handed to `send_to` to look like.
+#[derive(Clone, Copy)]
+struct Expect {
+    active: bool,
+    size: usize,
+    proto: u8,
+    ttl: u8,
+    tos: u8,
+    ip_id: u16,
+    src: u32,
+    dst: u32,
+    // icmp
+    icmp_id: u16,
+    icmp_seq: u16,
+    // udp
+    sport: u16,
+    dport: u16,
+    paris_seq: Option<u16>,
+    pattern: u8,
+}
+
+static mut EXPECT: Expect = Expect {
+    active: false, size: 0, proto: 0, ttl: 0, tos: 0, ip_id: 0, src: 0, dst: 0, icmp_id: 0, icmp_seq: 0, sport: 0,
+    dport: 0, paris_seq: None, pattern: 0,
+};
+static mut SENT_UDP_CHECKSUM: u16 = 0;
+static mut SENT_LEN: usize = 0;
+
+const MAXCHK: usize = 40;
+
+/// Called by the socket model with the exact bytes handed to `send_to`: decode them with the
+/// independent RFC-offset decoder and compare with the probe and configuration.
+fn on_send(b: &[u8]) {
+    let e = unsafe { EXPECT };
+    unsafe { SENT_LEN = b.len() };
+    if !e.active {
+        return;
+    }
+    assert!(b.len() == e.size, "datagram size equals the configured packet size");
+    // ---- IPv4 header (RFC 791)
+    assert!(b[0] == 0x45, "version 4, IHL 5");
+    assert!(b[1] == e.tos, "configured type of service");
+    assert!(usize::from(be16(b, 2)) == e.size, "total length consistent with the bytes sent");
+    assert!(be16(b, 4) == e.ip_id, "IP identification");
+    assert!(be16(b, 6) == 0x4000, "don't-fragment set, no fragment offset");
+    assert!(b[8] == e.ttl, "probe ttl");
+    assert!(b[9] == e.proto, "protocol");
+    assert!(be32(b, 12) == e.src && be32(b, 16) == e.dst, "addressed from the source to the target");
+    if e.proto == 1 {
+        // ---- ICMP echo request (RFC 792)
+        assert!(b[20] == 8 && b[21] == 0, "echo request");
+        assert!(be16(b, 24) == e.icmp_id, "trace identifier");
+        assert!(be16(b, 26) == e.icmp_seq, "sequence in the ICMP sequence field");
+        assert!(fold(ones_sum(b, 20, e.size, MAXCHK)) == 0xffff, "ICMP checksum verifies");
+        let mut i = 28;
+        while i < 28 + MAXCHK {
+            if i < e.size {
+                assert!(b[i] == e.pattern, "payload is the configured pattern");
+            }
+            i += 1;
+        }
+    } else {
+        // ---- UDP (RFC 768)
+        assert!(be16(b, 20) == e.sport && be16(b, 22) == e.dport, "UDP ports");
+        assert!(usize::from(be16(b, 24)) == e.size - 20, "UDP length consistent");
+        let pseudo = (e.src >> 16) + (e.src & 0xffff) + (e.dst >> 16) + (e.dst & 0xffff) + 17 + (e.size as u32 - 20);
+        assert!(fold(pseudo + ones_sum(b, 20, e.size, MAXCHK)) == 0xffff, "UDP checksum verifies");
+        unsafe { SENT_UDP_CHECKSUM = be16(b, 26) };
+        match e.paris_seq {
+            Some(seq) => assert!(be16(b, 26) == seq, "Paris: the UDP checksum field carries the sequence"),
+            None => {
+                let mut i = 28;
+                while i < 28 + MAXCHK {
+                    if i < e.size {
+                        assert!(b[i] == e.pattern, "payload is the configured pattern");
+                    }
+                    i += 1;
+                }
+            }
+        }
+    }
+}
+
+fn any_ipv4_cfg(protocol: Protocol, size: u16, ext: bool) -> Ipv4 {
+    Ipv4 {
+        src_addr: any_ipv4(),
+        dest_addr: any_ipv4(),
+        byte_order: platform::Ipv4ByteOrder::Network,
+        packet_size: PacketSize(size),
+        payload_pattern: PayloadPattern(if option_env!("VERIF_THOROUGH").is_some() { kani::any() } else { 0xA5 }),
+        privilege_mode: PrivilegeMode::Privileged,
+        tos: TypeOfService(kani::any()),
+        protocol,
+        icmp_extension_mode: if ext { IcmpExtensionParseMode::Enabled } else { IcmpExtensionParseMode::Disabled },
+    }
+}
+
+fn any_probe(flags: Flags) -> Probe {
+    Probe::new(
+        Sequence(kani::any()),
+        TraceId(kani::any()),
+        Port(kani::any()),
+        Port(kani::any()),
+        TimeToLive(kani::any()),
+        RoundId(0),
+        UNIX_EPOCH,
+        flags,
+    )
+}
+
+// =========================================================================== C11: dispatch
+
+/// ICMP echo request over the real `dispatch_icmp_probe`: every sequence, identifier, ttl, tos and
+/// address pair (symbolic), packet size `size`; the bytes handed to the socket decode as configured.
+fn dispatch_icmp(size: u16) {
+    let ipv4 = any_ipv4_cfg(Protocol::Icmp, size, false);
+    let probe = any_probe(Flags::empty());
+    unsafe {
+        EXPECT = Expect {
+            active: true, size: usize::from(size), proto: 1, ttl: probe.ttl.0, tos: ipv4.tos.0, ip_id: 0,
+            src: u32::from(ipv4.src_addr), dst: u32::from(ipv4.dest_addr), icmp_id: probe.identifier.0,
+            icmp_seq: probe.sequence.0, sport: 0, dport: 0, paris_seq: None, pattern: ipv4.payload_pattern.0,
+        };
+    }
+    let mut s = HSock;
+    let dst = ipv4.dest_addr;
+    let r = ipv4.dispatch_icmp_probe(&mut s, probe);
+    assert!(r.is_ok());
+    unsafe {
+        assert!(sockstate::SEND_CALLS == 1, "exactly one datagram per probe");
+        assert!(sockstate::SEND_ADDR == Some(SocketAddr::new(IpAddr::V4(dst), 0)), "sent to the target");
+    }
+}
+
+#[kani::proof]
+#[kani::unwind(45)]
+fn c11_v4_dispatch_icmp_min() {
+    dispatch_icmp(28);
+}
+#[kani::proof]
+#[kani::unwind(45)]
+fn c11_v4_dispatch_icmp_odd() {
+    dispatch_icmp(29);
+}
+#[kani::proof]
+#[kani::unwind(45)]
+fn c11_v4_dispatch_icmp_37() {
+    dispatch_icmp(37);
+}
+
+/// UDP over the real `dispatch_udp_probe` (privileged / raw): classic (flags empty), Paris
+/// (checksum swap) and Dublin (IP identification = probe identifier).
+fn dispatch_udp(size: u16, paris: bool) {
+    let ipv4 = any_ipv4_cfg(Protocol::Udp, size, false);
+    let probe = any_probe(if paris { Flags::PARIS_CHECKSUM } else if kani::any() { Flags::DUBLIN_IPV6_PAYLOAD_LENGTH } else { Flags::empty() });
+    unsafe {
+        EXPECT = Expect {
+            active: true,
+            // Paris probes carry a fixed 2-byte payload whatever the configured size
+            size: if paris { 30 } else { usize::from(size) },
+            proto: 17, ttl: probe.ttl.0, tos: ipv4.tos.0, ip_id: probe.identifier.0,
+            src: u32::from(ipv4.src_addr), dst: u32::from(ipv4.dest_addr), icmp_id: 0, icmp_seq: 0,
+            sport: probe.src_port.0, dport: probe.dest_port.0,
+            paris_seq: if paris { Some(probe.sequence.0) } else { None }, pattern: ipv4.payload_pattern.0,
+        };
+    }
+    let mut s = HSock;
+    let (dst, dport) = (ipv4.dest_addr, probe.dest_port.0);
+    let r = ipv4.dispatch_udp_probe(&mut s, probe);
+    assert!(r.is_ok());
+    unsafe {
+        assert!(sockstate::SEND_CALLS == 1, "exactly one datagram per probe");
+        assert!(sockstate::SEND_ADDR == Some(SocketAddr::new(IpAddr::V4(dst), dport)), "sent to the target");
+    }
+}
+
+/// C19 (H19c): the checksum the tracer later computes as "expected" for a quotation of its own
+/// probe (`calc_udp_checksum` from the quoted ports and payload length) equals the checksum
+/// `make_udp_packet` put on the wire for that probe — so an unrewritten path never shows NAT.
+/// Ports, addresses and the payload pattern symbolic; payload sizes {0, 1, 9}.
+fn expected_checksum_is_sent_checksum(payload: usize) {
+    let ipv4 = any_ipv4_cfg(Protocol::Udp, 28 + payload as u16, false);
+    let (sp, dp): (u16, u16) = kani::any();
+    let mut buf = [0u8; 64];
+    let data = [ipv4.payload_pattern.0; 16];
+    let sent = ipv4.make_udp_packet(&mut buf, sp, dp, &data[..payload]).unwrap().get_checksum();
+    let expected = ipv4.calc_udp_checksum(Port(sp), Port(dp), payload as u16).unwrap();
+    assert!(expected == sent, "expected checksum = checksum as sent");
+}
+
+#[kani::proof]
+#[kani::unwind(45)]
+fn c19_v4_expected_checksum_payload_0() {
+    expected_checksum_is_sent_checksum(0);
+}
+#[kani::proof]
+#[kani::unwind(45)]
+fn c19_v4_expected_checksum_payload_1() {
+    expected_checksum_is_sent_checksum(1);
+}
+#[kani::proof]
+#[kani::unwind(45)]
+fn c19_v4_expected_checksum_payload_9() {
+    expected_checksum_is_sent_checksum(9);
+}
+
+#[kani::proof]
+#[kani::unwind(45)]
+fn c11_v4_dispatch_udp_min() {
+    dispatch_udp(28, false);
+}
+#[kani::proof]
+#[kani::unwind(45)]
+fn c11_v4_dispatch_udp_odd() {
+    dispatch_udp(29, false);
+}
+#[kani::proof]
+#[kani::unwind(45)]
+fn c11_v4_dispatch_udp_37() {
+    dispatch_udp(37, false);
+}
+#[kani::proof]
+#[kani::unwind(45)]
+fn c13_v4_dispatch_udp_paris() {
+    dispatch_udp(37, true);
+}
+
+/// Packet size guards: every size outside [28, 1024] is rejected with InvalidPacketSize before
+/// anything is sent (all 2^16 sizes outside the range, symbolic).
+#[kani::proof]
+#[kani::unwind(34)]
+fn c11_v4_size_guards() {
+    let size: u16 = kani::any();
+    kani::assume(size < 28 || size > 1024);
+    let udp: bool = kani::any();
+    let ipv4 = any_ipv4_cfg(if udp { Protocol::Udp } else { Protocol::Icmp }, size, false);
+    let probe = any_probe(Flags::empty());
+    let mut s = HSock;
+    let r = if udp { ipv4.dispatch_udp_probe(&mut s, probe) } else { ipv4.dispatch_icmp_probe(&mut s, probe) };
+    match r {
+        Err(Error::InvalidPacketSize(n)) => assert!(n == usize::from(size)),
+        _ => assert!(false, "size guard"),
+    }
+    assert!(unsafe { sockstate::SEND_CALLS } == 0);
+    kani::cover!(size == 27, "just below");
+    kani::cover!(size == 1025, "just above");
+}
+
+/// Unprivileged UDP and TCP: the socket is bound to the source address and probe source port, the
+/// ttl and tos options carry the probe's ttl and the configured tos, the datagram / connection goes
+/// to the target address and the probe's destination port.  Bind / connect failures map to
+/// AddressInUse (EADDRINUSE), ProbeFailed (EADDRNOTAVAIL on bind, ENETUNREACH on connect), nothing
+/// (EINPROGRESS), or a fatal IoError.
+#[kani::proof]
+#[kani::unwind(34)]
+fn c11_v4_dispatch_tcp() {
+    let ipv4 = any_ipv4_cfg(Protocol::Tcp, 28, false);
+    let probe = any_probe(Flags::empty());
+    let (b, c): (u8, u8) = kani::any();
+    kani::assume(b <= 7 && c <= 7);
+    unsafe {
+        sockstate::BIND_OUTCOME = b;
+        sockstate::CONNECT_OUTCOME = c;
+    }
+    let r = ipv4.dispatch_tcp_probe::<HSock>(&probe);
+    let local = SocketAddr::new(IpAddr::V4(ipv4.src_addr), probe.src_port.0);
+    let remote = SocketAddr::new(IpAddr::V4(ipv4.dest_addr), probe.dest_port.0);
+    unsafe {
+        assert!(sockstate::BIND_ADDR == Some(local), "bound to source address and source port");
+    }
+    let bind_ok = b == 0 || b == 5;
+    if !bind_ok {
+        match (b, &r) {
+            (1, Err(Error::AddressInUse(a))) => assert!(*a == local),
+            (2, Err(Error::ProbeFailed(_))) => {}
+            (3 | 4 | 6 | 7, Err(Error::IoError(_))) => {}
+            _ => assert!(false, "bind error mapping"),
+        }
+        assert!(unsafe { sockstate::CONNECT_ADDR.is_none() });
+    } else {
+        unsafe {
+            assert!(sockstate::TTL_SET == Some(u32::from(probe.ttl.0)), "probe ttl");
+            assert!(sockstate::TOS_SET == Some(u32::from(ipv4.tos.0)), "configured tos");
+            assert!(sockstate::CONNECT_ADDR == Some(remote), "connects to the target and destination port");
+        }
+        match (c, &r) {
+            (0 | 5, Ok(_)) => {}
+            (1, Err(Error::AddressInUse(a))) => assert!(*a == remote),
+            (4, Err(Error::ProbeFailed(_))) => {}
+            (2 | 3 | 6 | 7, Err(Error::IoError(_))) => {}
+            _ => assert!(false, "connect error mapping"),
+        }
+    }
+    kani::cover!(r.is_ok(), "connected");
+    kani::cover!(matches!(r, Err(Error::AddressInUse(_))), "address in use");
+    std::mem::forget(r);
+}
+
+/// C09 error mapping on the raw send path: EHOSTUNREACH / ENETUNREACH (and EINVAL for ICMP) are
+/// transient (ProbeFailed); everything else is fatal (IoError).
+#[kani::proof]
+#[kani::unwind(45)]
+fn c09_v4_send_error_mapping() {
+    let icmp: bool = kani::any();
+    let ipv4 = any_ipv4_cfg(if icmp { Protocol::Icmp } else { Protocol::Udp }, 28, false);
+    let probe = any_probe(Flags::empty());
+    let o: u8 = kani::any();
+    kani::assume(o >= 1 && o <= 7);
+    unsafe { sockstate::SEND_OUTCOME = o };
+    let mut s = HSock;
+    let r = if icmp { ipv4.dispatch_icmp_probe(&mut s, probe) } else { ipv4.dispatch_udp_probe(&mut s, probe) };
+    match (o, &r) {
+        (3 | 4, Err(Error::ProbeFailed(_))) => {}
+        (6, Err(Error::ProbeFailed(_))) => assert!(icmp),
+        (6, Err(Error::IoError(_))) => assert!(!icmp),
+        (1 | 2 | 5 | 7, Err(Error::IoError(_))) => {}
+        _ => assert!(false, "send error mapping"),
+    }
+    kani::cover!(matches!(r, Err(Error::ProbeFailed(_))), "transient");
+    kani::cover!(matches!(r, Err(Error::IoError(_))), "fatal");
+    std::mem::forget(r);
+}
+
+// =========================================================================== C04 / C01: the receive path
+
+fn stub_udp_ck(_data: &[u8], _src: Ipv4Addr, _dst: Ipv4Addr) -> u16 {
+    kani::any()
+}
+
+fn arm_read() -> usize {
+    let bytes: [u8; sockstate::RBUF] = kani::any();
+    let len: usize = kani::any();
+    kani::assume(len <= sockstate::RBUF);
+    unsafe {
+        sockstate::READ_BYTES = bytes;
+        sockstate::READ_LEN = len;
+        sockstate::READ_ERR = 0;
+    }
+    len
+}
+
+/// Whatever <= N bytes arrive on the receive socket (N = 48 quick / 64 thorough, every length
+/// 0..=N): `recv_icmp_probe` returns (a response, nothing, or an error value) without panicking,
+/// overflowing or reading outside the datagram; a response carries the outer source address, the
+/// ICMP code byte and the clock reading taken in the call (C01 ground truth at the wire).
+fn recv_no_panic(protocol: Protocol, ext: bool) {
+    let ipv4 = any_ipv4_cfg(protocol, 84, ext);
+    let len = arm_read();
+    let now_s: u32 = kani::any();
+    clock::set(0, u64::from(now_s), 0);
+    clock::set(1, u64::from(now_s), 0);
+    clock::set(2, u64::from(now_s), 0);
+    let mut s = HSock;
+    let r = ipv4.recv_icmp_probe(&mut s);
+    let b = unsafe { sockstate::READ_BYTES };
+    if let Ok(Some(resp)) = &r {
+        let ihl = usize::from(b[0] & 0xf);
+        let off = if ihl < 5 { 20 } else { ihl * 4 };
+        let d = resp.data();
+        assert!(d.addr == IpAddr::V4(Ipv4Addr::new(b[12], b[13], b[14], b[15])), "responder = outer source address");
+        assert!(d.recv == clock::mk(u64::from(now_s), 0), "receive time = clock reading taken in the call");
+        match resp {
+            Response::TimeExceeded(_, code, _) => assert!(b[off] == 11 && code.0 == b[off + 1] && code.0 == 0),
+            Response::DestinationUnreachable(_, code, _) => assert!(b[off] == 3 && code.0 == b[off + 1]),
+            Response::EchoReply(_, code) => assert!(b[off] == 0 && code.0 == b[off + 1] && matches!(protocol, Protocol::Icmp)),
+            _ => assert!(false, "no TCP responses on the ICMP path"),
+        }
+    }
+    kani::cover!(matches!(r, Ok(Some(Response::TimeExceeded(..)))), "time exceeded recognised");
+    kani::cover!(matches!(r, Ok(Some(Response::DestinationUnreachable(..)))), "destination unreachable recognised");
+    kani::cover!(matches!(r, Err(_)), "malformed datagram rejected with an error value");
+    kani::cover!(matches!(r, Ok(None)) && len >= 28, "unrelated datagram ignored");
+    std::mem::forget(r);
+}
+
+#[kani::proof]
+#[kani::unwind(100)]
+#[kani::stub(std::time::SystemTime::now, clock::now_stub)]
+fn c04_v4_recv_icmp() {
+    recv_no_panic(Protocol::Icmp, false);
+}
+#[kani::proof]
+#[kani::unwind(100)]
+#[kani::stub(std::time::SystemTime::now, clock::now_stub)]
+fn c04_v4_recv_tcp() {
+    recv_no_panic(Protocol::Tcp, false);
+}
+#[kani::proof]
+#[kani::unwind(100)]
+#[kani::stub(std::time::SystemTime::now, clock::now_stub)]
+#[kani::stub(trippy_packet::checksum::udp_ipv4_checksum, stub_udp_ck)]
+fn c04_v4_recv_udp() {
+    recv_no_panic(Protocol::Udp, false);
+}
+
+/// A read that would block is "nothing", any other read error is returned as an error value.
+#[kani::proof]
+#[kani::unwind(3)]
+fn c09_v4_recv_socket_errors() {
+    let ipv4 = any_ipv4_cfg(Protocol::Icmp, 84, false);
+    let e: u8 = kani::any();
+    kani::assume(e == 1 || e == 2);
+    unsafe { sockstate::READ_ERR = e };
+    let mut s = HSock;
+    let r = ipv4.recv_icmp_probe(&mut s);
+    match (e, &r) {
+        (1, Ok(None)) => {}
+        (2, Err(Error::IoError(_))) => {}
+        _ => assert!(false, "read error mapping"),
+    }
+    kani::cover!(e == 2, "fatal");
+    std::mem::forget(r);
+}
+
+/// `calc_udp_checksum` for EVERY payload size 0..=65535 (attacker-controlled): never panics (sizes
+/// beyond the buffer are clamped).
+#[kani::proof]
+#[kani::unwind(3)]
+#[kani::stub(trippy_packet::checksum::udp_ipv4_checksum, stub_udp_ck)]
+fn c04_v4_calc_udp_checksum_any_size() {
+    let ipv4 = any_ipv4_cfg(Protocol::Udp, 84, false);
+    let size: u16 = kani::any();
+    let r = ipv4.calc_udp_checksum(Port(kani::any()), Port(kani::any()), size);
+    assert!(r.is_ok());
+    kani::cover!(size == 65535, "maximum");
+}
+
+// =========================================================================== C02: parse honours the wire contract
+
+const QN: usize = if option_env!("VERIF_THOROUGH").is_some() { 64 } else { 48 };
+
+/// `extract_probe_proto_resp` on an ARBITRARY quoted datagram (symbolic content, symbolic length
+/// from IP header + 8 up to N, any IHL that fits, any ttl / header checksum / tos as rewritten in
+/// transit): the identity fields it returns are the bytes at the RFC offsets — the contract the
+/// identity tables (c02_identity_*) and the dispatch harnesses (c11_*) are stated against.
+fn extract_contract(protocol: Protocol) {
+    let ipv4 = any_ipv4_cfg(protocol, 84, false);
+    let q: [u8; QN] = kani::any();
+    let len: usize = kani::any();
+    let ihl = usize::from(q[0] & 0xf);
+    let off = if ihl < 5 { 20 } else { ihl * 4 };
+    kani::assume(len >= off + 8 && len <= QN); // standards-conforming quotation: IP header + >= 8 octets
+    let pkt = Ipv4Packet::new_view(&q[..len]).unwrap();
+    let r = ipv4.extract_probe_proto_resp(&pkt);
+    let dest = IpAddr::V4(Ipv4Addr::new(q[16], q[17], q[18], q[19]));
+    let want_proto = match protocol {
+        Protocol::Icmp => 1,
+        Protocol::Udp => 17,
+        Protocol::Tcp => 6,
+    };
+    match r {
+        Ok(Some(ProtocolResponse::Icmp(i))) => {
+            assert!(q[9] == 1 && want_proto == 1);
+            assert!(i.identifier == be16(&q, off + 4) && i.sequence == be16(&q, off + 6));
+            assert!(i.tos == Some(TypeOfService(q[1])));
+        }
+        Ok(Some(ProtocolResponse::Udp(u))) => {
+            assert!(q[9] == 17 && want_proto == 17);
+            assert!(u.src_port == be16(&q, off) && u.dest_port == be16(&q, off + 2));
+            assert!(u.actual_udp_checksum == be16(&q, off + 6));
+            assert!(u.identifier == be16(&q, 4), "IP identification");
+            assert!(u.payload_len == be16(&q, off + 4).saturating_sub(8));
+            assert!(u.dest_addr == dest && u.tos == Some(TypeOfService(q[1])) && !u.has_magic);
+        }
+        Ok(Some(ProtocolResponse::Tcp(t))) => {
+            assert!(q[9] == 6 && want_proto == 6);
+            assert!(t.src_port == be16(&q, off) && t.dest_port == be16(&q, off + 2), "ports even from an 8-octet quotation");
+            assert!(t.dest_addr == dest && t.tos == Some(TypeOfService(q[1])));
+        }
+        Ok(None) => assert!(q[9] != want_proto, "a quotation of another protocol is never accepted"),
+        Err(_) => assert!(false, "a conforming quotation always parses"),
+    }
+    kani::cover!(q[9] == want_proto && ihl == 6 && len == off + 8, "options present, minimal quotation");
+    kani::cover!(q[9] == want_proto && len == QN, "long quotation");
+    kani::cover!(q[9] != want_proto, "other protocol");
+}
+
+#[kani::proof]
+#[kani::unwind(24)]
+fn c02_v4_extract_icmp() {
+    extract_contract(Protocol::Icmp);
+}
+#[kani::proof]
+#[kani::unwind(24)]
+#[kani::stub(trippy_packet::checksum::udp_ipv4_checksum, stub_udp_ck)]
+fn c02_v4_extract_udp() {
+    extract_contract(Protocol::Udp);
+}
+#[kani::proof]
+#[kani::unwind(24)]
+fn c02_v4_extract_tcp() {
+    extract_contract(Protocol::Tcp);
+}
+
+/// TCP handshake answers carry the probe's own ports and the target address (H02d).
+#[kani::proof]
+#[kani::unwind(3)]
+#[kani::stub(std::time::SystemTime::now, clock::now_stub)]
+fn c02_v4_recv_tcp_socket() {
+    let ipv4 = any_ipv4_cfg(Protocol::Tcp, 28, false);
+    let (sp, dp): (u16, u16) = kani::any();
+    let mut s = HSock;
+    // HSock::take_error returns None (connected) and peer_addr None => MissingAddr error value
+    let r = ipv4.recv_tcp_socket(&mut s, Port(sp), Port(dp));
+    assert!(matches!(r, Err(Error::MissingAddr)));
+    std::mem::forget(r);
+}
